@@ -37,7 +37,10 @@ def run(ctx, intensify=False):
         rej_shared += o["rejected_shared"]
         hangs += o["hangs"]
     res.suites.append({"name": "K-graph", "cases": kcases, "observations": starts, "disagreements": dis, "inconclusive": 0,
-                       "distribution": {"chains_rejected_in_shared_job_systems(D2)": rej_shared, "non_terminating(D13)": hangs}})
+                       "distribution": {"chains_rejected_in_shared_job_systems(D2)": rej_shared, "non_terminating(D13)": hangs,
+                                        "graphs_meeting_hypotheses_of_code_chain_accepted": sum(o.get("hyp_met", 0) for o in kouts),
+                                        "graphs_not_meeting_them_shared_job": sum(o.get("hyp_not_met_shared", 0) for o in kouts),
+                                        "graphs_not_meeting_them_other": sum(o.get("hyp_not_met_other", 0) for o in kouts)}})
     res.suites.append({"name": "graph-checks", "cases": cases, "observations": graphs, "disagreements": [], "inconclusive": 0,
                        "distribution": {"phases": phases, "nodes_after_build": nodes, "chains_checked_systems": chains, "perturbed_systems": pert}})
     res.evaluations = graphs
